@@ -222,6 +222,10 @@ def check_history(ctx, history):
             if used != keep or type(used) is not type(keep):
                 raise Violation("c02:alias:%s:argument" % step.kind,
                                 "%s: the constructor changed its argument" % where, case)
+        if step.kind == "bad":
+            # a rejected operation: every variable was compared with its snapshot above; the operand is read in full
+            check_var(vars_[step.operands[0]], case, where + ": operand after the rejected operation")
+            return
         if step.kind == "retable":
             # the masses of the private table were changed: every formula living on it follows
             for k, v in enumerate(vars_):
